@@ -74,6 +74,14 @@ def check(tier, seed):
             add(f"derive {s} bytes:{kb.hex()}", 'accepted dishonest sk: derive public key', t < 1)
             mode = fam.MODES[t % 4]
             add(f"sign {s} {mode} bytes:{kb.hex()} {hx(msg)} {hx(b'c')} ok:{'33' * 32}", 'accepted dishonest sk: sign', t < 1)
+        # --- hint sections built from scratch (long increasing index runs x count patterns beyond every bound) on a zero c~ / z prefix
+        for tag, y in fam.adversarial_hint_sections(p):
+            sg = bytes(glen - len(y)) + y
+            add(f"verify {s} pure bytes:{pk.hex()} {hx(msg)} - {sg.hex()}", 'verify: crafted hint section', 'last 0' in tag and 'indices 0,1,2' in tag)
+        # --- a whole s1/s2 polynomial out of range, the all-FF key
+        for tag, kb in fam.whole_poly_bad_keys(s, sk):
+            add(f"sk_rt {s} bytes:{kb.hex()}", 'whole polynomial out of range: deserialise (+ serialise if accepted)', False)
+            add(f"derive {s} bytes:{kb.hex()}", 'whole polynomial out of range: derive', False)
         # --- one out-of-range s1/s2 field at each structural position: whatever deserialisation does with it, nothing may panic
         for pi in sorted({0, l - 1, l, l + k - 1}):
             for ci in (0, 1, 2, 3, 4, 5, 6, 7, 253, 255):      # every alignment of a field against the byte boundaries
